@@ -139,8 +139,12 @@ def finalize(plan):
             if w is not None and w['end'] is not None and stream[w['end']:w['end'] + 4] == b'7777':
                 s['lands'] = True
         elif k == 'undef':
-            sure = f['pos'] in bufrgen.top_level_positions(w0['ids'])
-            s['must_skip'] = bool(sure and (w0['nsub'] >= 1 or w0['compressed']))
+            # an undefined descriptor anywhere in the list makes the descriptor list one that cannot be turned
+            # into a template - also where the data would never reach it (inside a replication executed zero
+            # times, in a message of zero subsets). The one exception: the descriptor that follows 206YYY is a
+            # local descriptor of known width and is legitimately passed over
+            p0 = f['pos']
+            s['must_skip'] = not (p0 > 0 and 206000 < w0['ids'][p0 - 1] <= 206255)
         elif k in ('data', 'total'):
             s['must_skip'] = False
         elif k == 'trunc':
